@@ -472,6 +472,56 @@ func runC07(c *Ctx) {
 			}
 		})
 		c.check(order, "C07.marshal", mt, "for each name in slice order: separator, then the name", nil, "names keep their order")
+		// nothing else is written: every append of MarshalText adds either
+		// separator bytes or the bytes of a name of rec.Names as it is stored
+		core.EachInstr(mt, func(in ssa.Instruction) {
+			call, ok := in.(*ssa.Call)
+			if !ok {
+				return
+			}
+			if b, isB := call.Call.Value.(*ssa.Builtin); !isB || b.Name() != "append" || len(call.Call.Args) != 2 {
+				return
+			}
+			src := call.Call.Args[1]
+			okSrc := false
+			switch x := src.(type) {
+			case *ssa.UnOp:
+				if ia, isIA := x.X.(*ssa.IndexAddr); isIA && x.Op == token.MUL {
+					if name, _, ok := core.IsLoadOfField(ia.X); ok && name == "Names" {
+						okSrc = true
+					}
+				}
+			case *ssa.Slice:
+				// the variadic bytes: all stored values are separator constants
+				if al, isAl := x.X.(*ssa.Alloc); isAl {
+					okSrc = true
+					n := 0
+					for _, r := range core.Refs(al) {
+						ia, isIA := r.(*ssa.IndexAddr)
+						if !isIA {
+							continue
+						}
+						for _, rr := range core.Refs(ia) {
+							if st, isSt := rr.(*ssa.Store); isSt {
+								n++
+								if k, isK := core.ConstInt(st.Val); !isK || strings.IndexByte(spaces, byte(k)) < 0 {
+									okSrc = false
+								}
+							}
+						}
+					}
+					okSrc = okSrc && n > 0
+				}
+			case *ssa.Const:
+				if sv, isS := core.ConstString(x); isS {
+					okSrc = sv != "" && strings.Trim(sv, spaces) == ""
+				}
+			}
+			if !okSrc {
+				c.check(false, "C07.marshal", mt, "what is appended to the text: "+core.Describe(src), call,
+					"MarshalText may write only separators and the stored names themselves; a name written in another form re-parses to a different record")
+			}
+		})
 	}
 }
 
